@@ -118,7 +118,7 @@ Definition EE : Values.env :=
    (n_In, Values.TInput [(n_r, {| Values.in_type := Values.StNamed n_Int'; Values.in_default := Some (Values.GInt 2) |});
                          (n_m, {| Values.in_type := Values.StNamed n_Int'; Values.in_default := None |})] Values.HNone)].
 Definition the_field : afield Z :=
-  {| af_argdefs := [(n_xs, {| Values.in_type := Values.StList (Values.StNamed n_Int'); Values.in_default := None |});
+  {| af_name := []; af_argdefs := [(n_xs, {| Values.in_type := Values.StList (Values.StNamed n_Int'); Values.in_default := None |});
                     (n_o, {| Values.in_type := Values.StNamed n_In; Values.in_default := None |})];
      af_args := [(n_xs, Values.LVar n_l); (n_o, Values.LObject [(n_m, Values.LVar n_v)])];
      af_cost := Some (fun ctx a => Some {| fc_r := match Values.aget n_xs a with Some (Values.GList l) => Z.of_nat (length l) | _ => 0 end;
